@@ -6,6 +6,7 @@ import (
 	"context"
 	"fmt"
 	"sort"
+	"strings"
 	gosync "sync"
 	"testing"
 	"testing/synctest"
@@ -67,6 +68,10 @@ func TestVMC_C20conc(t *testing.T) {
 	vmc.Main(t, vmc.Harness{ID: "C20", Configs: c20cConfigs, Run: c20ConcRun, Bubble: true, ShardSubtree: true})
 }
 
+// c20CrashSeen caches the verdict of the crash analysis per (configuration, journal+events):
+// "" = every crash image allowed, otherwise "sig\x00msg" of the violation (re-reported on a hit).
+var c20CrashSeen = map[string]map[string]string{}
+
 type c20event struct {
 	what   string
 	key    int
@@ -110,6 +115,8 @@ func c20ConcRun(x *vmc.X, cfg vmc.Cfg) {
 			return
 		}
 	}
+	synctest.Wait()
+	setupJ := env.group.JournalLen()
 	old := map[int]bool{}
 	for _, i := range c.old {
 		old[i] = true
@@ -128,8 +135,12 @@ func c20ConcRun(x *vmc.X, cfg vmc.Cfg) {
 	defer rcancel()
 	ch := make(chan cid.Cid)
 
+	resetDone := make(chan struct{})
+	feederInSend, putterInCall := false, false
+	streamClosed := false
 	schedOn = true
 	sched.Go("reset", func() {
+		defer close(resetDone)
 		reset.callAt = tick()
 		reset.err = rks.ResetCids(rctx, ch)
 		reset.retAt = tick()
@@ -139,14 +150,25 @@ func c20ConcRun(x *vmc.X, cfg vmc.Cfg) {
 		for _, i := range c.stream {
 			sched.Point(fmt.Sprintf("feed k%d", i))
 			select {
-			case ch <- cid.NewCidV1(cid.Raw, keys.mhs[i]):
-			case <-rctx.Done():
+			case <-resetDone:
 				return
-			case <-time.After(time.Hour): // reset gone (closed keystore): stop feeding
-				return
+			default:
 			}
+			mu.Lock()
+			feederInSend = true
+			mu.Unlock()
+			select {
+			case ch <- cid.NewCidV1(cid.Raw, keys.mhs[i]):
+			case <-resetDone:
+			}
+			mu.Lock()
+			feederInSend = false
+			mu.Unlock()
 		}
 		sched.Point("close-stream")
+		mu.Lock()
+		streamClosed = true
+		mu.Unlock()
 		close(ch)
 	})
 	sched.Go("putter", func() {
@@ -155,41 +177,33 @@ func c20ConcRun(x *vmc.X, cfg vmc.Cfg) {
 				sched.Point(fmt.Sprintf("put k%d", i))
 			}
 			e := &c20event{what: "put", key: i, seq: n}
+			mu.Lock()
+			putterInCall = true
+			mu.Unlock()
 			e.callAt = tick()
 			_, e.err = ks.Put(ctx, keys.mhs[i])
 			e.retAt = tick()
 			e.j = env.group.JournalLen()
 			mu.Lock()
 			puts[n] = e
+			putterInCall = false
 			mu.Unlock()
 		}
 	})
 	cancelled, closeCalled := false, false
-	var closeErr error
+	ticks := 0
 	idle := 0
-	for steps := 0; steps < 400; steps++ {
-		var acts []vmc.Action
-		if c.cancel && !cancelled {
-			acts = append(acts, vmc.Action{Label: "cancel-reset-ctx", Cost: 1, Do: func() { cancelled = true; rcancel() }})
-		}
-		if c.closer && !closeCalled {
-			acts = append(acts, vmc.Action{Label: "close-keystore", Cost: 1, Do: func() {
-				closeCalled = true
-				sched.Go("closer", func() { closeErr = ks.Close(); closed = true })
-			}})
-		}
-		if sched.AllDone() {
-			synctest.Wait()
-			if len(sched.Parked()) == 0 {
-				break
-			}
-		}
+	harnessLabel := func(l string) bool {
+		return strings.HasSuffix(l, "@start") || strings.Contains(l, "@feed ") || strings.HasSuffix(l, "@close-stream") || strings.Contains(l, "@put k")
+	}
+	for steps := 0; steps < 600; steps++ {
 		synctest.Wait()
-		if len(sched.Parked()) == 0 {
-			// nothing is at a scheduling point: the only way forward is virtual time (drain ticker)
+		parked := sched.Parked()
+		if len(parked) == 0 {
 			if sched.AllDone() {
 				break
 			}
+			// nothing is at a scheduling point: the only way forward is virtual time (drain ticker)
 			idle++
 			if idle > 8 {
 				x.Failf("C20/hang", "no goroutine can make progress; unfinished threads %v (cancelled=%v close=%v)", sched.Unfinished(), cancelled, closeCalled)
@@ -199,21 +213,57 @@ func c20ConcRun(x *vmc.X, cfg vmc.Cfg) {
 			continue
 		}
 		idle = 0
+		// Environment actions are only offered at *quiet* instants: no goroutine is inside a datastore
+		// call, the feeder is not blocked handing over a key and no Put call is in flight. At such an
+		// instant ResetCids waits in its Phase-A select (or has finished), so exactly one select case
+		// becomes ready by the action; elsewhere the implementation's own selects would have several
+		// ready cases and Go would pick one at random (nondeterminism the explorer cannot own).
+		quiet := true
+		for _, l := range parked {
+			if !harnessLabel(l) {
+				quiet = false
+			}
+		}
+		mu.Lock()
+		if feederInSend || putterInCall {
+			quiet = false
+		}
+		mu.Unlock()
+		var acts []vmc.Action
+		resetRunning := !sched.Done("reset")
+		for _, l := range parked {
+			if strings.HasPrefix(l, "reset@") {
+				resetRunning = false
+			}
+		}
+		if quiet && resetRunning {
+			if c.cancel && !cancelled && !closeCalled {
+				acts = append(acts, vmc.Action{Label: "cancel-reset-ctx", Cost: 1, Do: func() { cancelled = true; rcancel() }})
+			}
+			if c.closer && !closeCalled && !cancelled {
+				acts = append(acts, vmc.Action{Label: "close-keystore", Cost: 1, Do: func() {
+					closeCalled = true
+					sched.GoNow("closer", func() { ks.Close() })
+				}})
+			}
+			if ticks < 2 && !closeCalled && !cancelled {
+				acts = append(acts, vmc.Action{Label: "drain-ticker", Cost: 1, Do: func() { ticks++; time.Sleep(phaseADrainInterval) }})
+			}
+		}
 		if !sched.Step(acts) {
 			break
 		}
 	}
+	synctest.Wait()
 	if !sched.AllDone() {
-		synctest.Wait()
-		if !sched.AllDone() {
-			x.Failf("C20/hang", "step budget exhausted; unfinished threads %v parked %v", sched.Unfinished(), sched.Parked())
-			return
-		}
+		x.Failf("C20/hang", "step budget exhausted; unfinished threads %v parked %v", sched.Unfinished(), sched.Parked())
+		return
 	}
 	sched.Finish()
 	schedOn = false
 	synctest.Wait()
-	_ = closeErr
+	closed = closeCalled
+	_ = streamClosed
 
 	// ---- oracle on the final contents -----------------------------------------------------------
 	disturbed := cancelled || closeCalled
@@ -284,12 +334,12 @@ func c20ConcRun(x *vmc.X, cfg vmc.Cfg) {
 		}
 	}
 	describe := func() string {
-		s := fmt.Sprintf("reset(call@%d ret@%d err=%v)", reset.callAt, reset.retAt, reset.err)
+		s := fmt.Sprintf("reset(call@%d ret@%d failed=%v)", reset.callAt, reset.retAt, reset.err != nil)
 		for n, e := range puts {
 			if e == nil {
 				s += fmt.Sprintf(" put#%d(k%d: unfinished)", n, c.puts[n])
 			} else {
-				s += fmt.Sprintf(" put#%d(k%d call@%d ret@%d err=%v)", n, e.key, e.callAt, e.retAt, e.err)
+				s += fmt.Sprintf(" put#%d(k%d call@%d ret@%d failed=%v)", n, e.key, e.callAt, e.retAt, e.err != nil)
 			}
 		}
 		return s
@@ -315,7 +365,7 @@ func c20ConcRun(x *vmc.X, cfg vmc.Cfg) {
 		closed = true
 	}
 	x.Obs("live=%s %s", setStr(live), describe())
-	x.Outcome("live=%s reset.err=%v cancelled=%v closed=%v", setStr(live), reset.err, cancelled, closeCalled)
+	x.Outcome("live=%s reset.failed=%v cancelled=%v closed=%v", setStr(live), reset.err != nil, cancelled, closeCalled)
 	journal := env.group.Journal()
 	// clean restart
 	ks2, _, err := env.open()
@@ -337,38 +387,86 @@ func c20ConcRun(x *vmc.X, cfg vmc.Cfg) {
 	if x.Failed() || !c.crash {
 		return
 	}
-	// crash at any journal instant of the run
-	t := x.Choose(len(journal)+1, vmc.Free, "crash-instant")
-	pending := jds.Pending(journal, t)
-	lost := map[int]bool{}
-	var stores []string
-	for n := range pending {
-		stores = append(stores, n)
+	// crash at every journal instant of the run (after the set-up), every lost suffix per store.
+	// The analysis depends only on the journal and on the call/acknowledge events, so it is done
+	// once per distinct (journal, events) pair per worker process.
+	jk := describe()
+	for _, e := range journal[setupJ:] {
+		jk += "|" + e.Store + e.Op + e.Key
 	}
-	sort.Strings(stores)
-	for _, n := range stores {
-		k := len(pending[n])
-		j := x.Choose(k+1, vmc.Free, "lost-suffix:"+n)
-		for _, i := range pending[n][k-j:] {
-			lost[i] = true
+	for _, e := range puts {
+		if e != nil {
+			jk += fmt.Sprintf("|j%d", e.j)
 		}
 	}
-	img := jds.CrashImage(journal, t, lost)
-	env3 := &c20env{c: sc, group: img, bufCap: c.bufCap}
-	ks3, _, err := env3.open()
-	if err != nil {
-		x.Failf("C20/reopen-after-crash", "crash at %d: %v", t, err)
+	jk += fmt.Sprintf("|r%d|%v", reset.j, disturbed)
+	if c20CrashSeen[cfg.Name] == nil {
+		c20CrashSeen[cfg.Name] = map[string]string{}
+	}
+	if v, ok := c20CrashSeen[cfg.Name][jk]; ok {
+		if v != "" {
+			parts := strings.SplitN(v, "\x00", 2)
+			x.Failf(parts[0], "%s", parts[1])
+		}
 		return
 	}
-	defer ks3.Close()
-	got3, err := c20Contents(ks3, keys)
-	if err != nil {
-		x.Failf("C20/contents-after-crash", "crash at %d: %v", t, err)
-		return
+	c20CrashSeen[cfg.Name][jk] = ""
+	fail := func(sig, format string, args ...any) {
+		msg := fmt.Sprintf(format, args...)
+		c20CrashSeen[cfg.Name][jk] = sig + "\x00" + msg
+		x.Failf(sig, "%s", msg)
 	}
-	if ok, why := allowed(got3, t, true); !ok {
-		x.Failf("C20/crash-contents-conc", "crash at journal instant %d/%d (lost %v): reopened keystore holds %s; %s; %s", t, len(journal), lost, setStr(got3), why, describe())
-		return
+	vmc.Count("distinct_journals_crash_analysed", 1)
+	for t := setupJ; t <= len(journal); t++ {
+		pending := jds.Pending(journal, t)
+		var stores []string
+		for n := range pending {
+			stores = append(stores, n)
+		}
+		sort.Strings(stores)
+		combos := [][]int{{}}
+		for _, n := range stores {
+			var nx [][]int
+			for _, cmb := range combos {
+				for j := 0; j <= len(pending[n]); j++ {
+					nx = append(nx, append(append([]int{}, cmb...), j))
+				}
+			}
+			combos = nx
+		}
+		for _, cmb := range combos {
+			lost := map[int]bool{}
+			for si, n := range stores {
+				k := len(pending[n])
+				for _, i := range pending[n][k-cmb[si]:] {
+					lost[i] = true
+				}
+			}
+			vmc.Count("crash_images", 1)
+			img := jds.CrashImage(journal, t, lost)
+			env3 := &c20env{c: sc, group: img, bufCap: c.bufCap}
+			ks3, _, err := env3.open()
+			if err != nil {
+				fail("C20/reopen-after-crash", "crash at %d: %v", t, err)
+				return
+			}
+			got3, err := c20Contents(ks3, keys)
+			if err != nil {
+				ks3.Close()
+				fail("C20/contents-after-crash", "crash at %d: %v", t, err)
+				return
+			}
+			if ok, why := allowed(got3, t, true); !ok {
+				ks3.Close()
+				fail("C20/crash-contents-conc", "crash at journal instant %d/%d (lost %v): reopened keystore holds %s; %s; %s", t, len(journal), lost, setStr(got3), why, describe())
+				return
+			}
+			ok := c20Reads(x, ks3, keys, got3, fmt.Sprintf("after crash at %d", t))
+			ks3.Close()
+			if !ok {
+				c20CrashSeen[cfg.Name][jk] = "C20/reads-after-crash\x00reads after crash at " + fmt.Sprint(t) + " disagree with the contents"
+				return
+			}
+		}
 	}
-	c20Reads(x, ks3, keys, got3, fmt.Sprintf("after crash at %d", t))
 }
